@@ -442,7 +442,14 @@ class C19Launch(EnumCheck):
 
     def cases(self):
         sp = self.specs()
-        return [sp[i:i + self.BATCH] for i in range(0, len(sp), self.BATCH)]
+        out = [sp[i:i + self.BATCH] for i in range(0, len(sp), self.BATCH)]
+        # batches whose config file lists the jobs in another order than their ids (a batch built over several passes,
+        # a shuffled configuration): unnamed jobs are still called by their job_id
+        for order in ("reverse", "rotate", "swap-first-two"):
+            for names in ((None,) * 4, (None, "named", None, None)):
+                out.append([dict(tokens=["x", str(k)], sep=" ", ajn=True, aod=bool(k & 1), code=10 + k, name=nm, order=order)
+                            for k, nm in enumerate(names)])
+        return out
 
     def weight(self, c):
         return len(c)
@@ -490,7 +497,20 @@ class C19Launch(EnumCheck):
             hpc_config=HpcConfig(hpc_type="slurm", hpc={"account": "a"}), poll_interval=0,
             generate_reports=False, resource_monitor_type="none", resource_monitor_interval=None)))
         ResultsAggregator.create(out)
-        runner = JobRunner(cfg, out, batch_id=1)
+        # the node reads its batch from the file the submitter wrote (config_batch_N.json)
+        cfile = os.path.join(out, "config_batch_1.json")
+        cfg.dump(cfile)
+        order = batch[0].get("order")
+        if order:
+            with open(cfile) as f:
+                data = json.load(f)
+            jl = data["jobs"]
+            data["jobs"] = {"reverse": jl[::-1], "rotate": jl[1:] + jl[:1], "swap-first-two": jl[1::-1] + jl[2:]}[order]
+            with open(cfile, "w") as f:
+                json.dump(data, f, indent=1)
+        from jade.jobs.job_configuration_factory import create_config_from_file
+
+        runner = JobRunner(create_config_from_file(cfile), out, batch_id=1)  # as `jade-internal run-jobs` does
         runner.run_jobs(distributed_submitter=False, verbose=False, num_parallel_processes_per_node=8)
         agg = ResultsAggregator.load(out)
         agg.process_results()
